@@ -54,6 +54,23 @@ func progCheck(t *testing.T, cfg progCheckCfg) {
 		noOpt := rapid.Bool().Draw(rt, "noopt")
 		mode := rapid.SampledFrom([]string{"map", "struct", "ptr"}).Draw(rt, "objmode")
 		c, m := caseFromProg(cfg.prop, cfg.part, pr, noOpt, mode)
+		if gen.Uniform(rt, "sequence", 4) == 0 && !c.Exp.Unspec {
+			// the same evaluator runs again (and again): the model goes on
+			// from the variables the previous run left
+			c.PrepareTwice = rapid.Bool().Draw(rt, "preparetwice")
+			for k := rapid.IntRange(1, 2).Draw(rt, "moreruns"); k > 0; k-- {
+				m.Trace = nil
+				m.Steps = 0
+				m.Quirk = false
+				e := expectFromModel(m, pr.P)
+				e.CheckTrace, e.CheckGlobals = true, true
+				c.Later = append(c.Later, e)
+				if e.Unspec {
+					break
+				}
+			}
+			col.Class(fmt.Sprintf("runs-on-one-evaluator:%d", 1+len(c.Later)))
+		}
 		t0 := time.Now()
 		if e := runCase(c); e != nil {
 			violation(rt, cfg.prop, c, "%v", e)
